@@ -252,6 +252,7 @@ type thread struct {
 	callAt  time.Time
 	wcall   *writerCall
 	// outer readers
+	sawWriter  bool         // a writer was granted while this reader held: its record is done since then
 	releasing  atomic.Bool  // a release call is in flight
 	toldAt     atomic.Int64 // unix nanos at which the watcher saw rctx done
 	releasedBy bool         // the driver asked for the release
@@ -378,7 +379,7 @@ func (r *runner) doAcquire(ti int, write bool, k, c int) {
 	} else {
 		t.st = stWaitR
 	}
-	t.key, t.ctxID, t.res, t.releasedBy = k, c, resNone, false
+	t.key, t.ctxID, t.res, t.releasedBy, t.sawWriter = k, c, resNone, false, false
 	t.toldAt.Store(0)
 	if !r.inBatch { // members of a batch are logged after the thaw, see issueBatch
 		r.arrivals[k] = append(r.arrivals[k], ti)
@@ -405,6 +406,21 @@ func (r *runner) doAcquire(ti int, write bool, k, c int) {
 		t.granted = time.Now()
 		if t.wcall != nil {
 			t.wcall.grantedAt = t.granted
+			// one-sided: a writer granted while some reader still holds without having released
+			// (its parent context may have ended - that is not a release) can only have been
+			// granted through that reader's grace timer, armed after the writer's call; timers
+			// never fire early, so the grant cannot come earlier than one grace period after the
+			// call (unless the lock was shut down)
+			// (a reader that has already seen a writer granted is done since then and does not count)
+			for _, t2 := range r.th {
+				if t2 == t || t2.st != stHoldR || t2.releasedBy {
+					continue
+				}
+				if !t2.sawWriter && r.shutdownAt.IsZero() && t.granted.Sub(t.callAt) < r.grace {
+					r.early = true
+				}
+				t2.sawWriter = true
+			}
 		}
 		w, rd := r.occupancy(k, t)
 		if write {
@@ -1124,7 +1140,11 @@ func runScript(ctx *core.Ctx, in c13Input, next func(prev obsRec, step int) (c13
 	c.Trivial = !contended
 	c.Observed = map[string]any{"obs": obs, "arrivals": r.arrivals, "grants": r.grants, "occupancy_violation": r.occBad || r.crashed,
 		"early_cancel": r.early, "bad_cause": r.badCause, "stuck": r.stuck}
-	c.Coq = fmt.Sprintf("CScript %s %d %s %s %s %s %s %s %s %s %s", lockCoq[in.Lock], in.N, hx.CoqInts(keys),
+	kind := lockCoq[in.Lock]
+	if in.Lock == "outer" && in.GraceMs >= longGraceMs {
+		kind = "LOuterLong" // hours of grace, never waited for: the model gets no timer events
+	}
+	c.Coq = fmt.Sprintf("CScript %s %d %s %s %s %s %s %s %s %s %s", kind, in.N, hx.CoqInts(keys),
 		hx.CoqList(coqOps), hx.CoqList(coqObs), logs(r.arrivals), logs(r.grants),
 		hx.CoqBool(r.occBad || r.crashed), hx.CoqBool(r.early), hx.CoqBool(r.badCause), hx.CoqBool(r.stuck))
 	r.mu.Unlock()
@@ -1976,6 +1996,42 @@ func outerFamilies(ctx *core.Ctx, r *hx.Rand, mul int) {
 		ops = append(ops, c13Op{Op: "lock", T: 0}, c13Op{Op: "grace"}, c13Op{Op: "unlock", T: 0},
 			c13Op{Op: "unlock", T: 1}, c13Op{Op: "unlock", T: 2})
 		c13Run(ctx, c13Input{Kind: "script", Lock: "outer", N: 3, Keys: 1, GraceMs: 50, Ops: ops})
+	}
+	for rep := 0; rep < 10*mul; rep++ {
+		// D: readers whose PARENT context ends while they hold (told to stop, not released) - that is
+		// not a release: a writer that comes now must still wait for their release (hours of grace
+		// in two scripts of three, never waited for; 50 ms really waited for in the third)
+		k := r.Range(1, 3)
+		var ops []c13Op
+		for t := 1; t <= k; t++ {
+			ops = append(ops, c13Op{Op: "rlock", T: t, C: t})
+		}
+		cancelled := 0
+		for t := 1; t <= k; t++ {
+			if r.Chance(2, 3) || (t == k && cancelled == 0) {
+				ops = append(ops, c13Op{Op: "cancel", C: t})
+				cancelled++
+			}
+		}
+		ops = append(ops, c13Op{Op: "lock", T: 0})
+		in := c13Input{Kind: "script", Lock: "outer", N: 5, Keys: 1, GraceMs: longGraceMs}
+		if rep%3 == 2 {
+			in.GraceMs = 50
+			ops = append(ops, c13Op{Op: "grace"})
+		} else {
+			if r.Chance(1, 2) {
+				ops = append(ops, c13Op{Op: "rlock", T: 4, C: 5}) // a newcomer queues behind the writer
+			}
+			for t := k; t >= 1; t-- {
+				ops = append(ops, c13Op{Op: "unlock", T: t})
+			}
+		}
+		ops = append(ops, c13Op{Op: "unlock", T: 0}, c13Op{Op: "unlock", T: 4})
+		for t := 1; t <= k; t++ {
+			ops = append(ops, c13Op{Op: "unlock", T: t})
+		}
+		in.Ops = ops
+		c13Run(ctx, in)
 	}
 	for rep := 0; rep < 12*mul; rep++ {
 		// B: a writer holds; reader 1 is being handled (waits for the slot), reader 2 sits in the
